@@ -189,6 +189,8 @@ CLAIMS = {
         design_ref="DESIGN.md §5 C15, §4.6", note="Trusted: TLC, virtual time through backend_options (loop_factory / MockClock), signal.raise_signal from a service task. A signal or crash during a CLI component's run(), and the outcome of a crash during start-up, are not specified."),
 }
 
+import subprocess
+HOOK_COMMIT = subprocess.run(["git", "-C", "/repo", "log", "--format=%H", "-1", "--grep=^verif: optional tracing"], capture_output=True, text=True).stdout.strip()
 PENDING_REASON = "check not built yet in this build session; planned (DESIGN.md §5)"
 
 
@@ -214,9 +216,9 @@ def main():
         "setup_cmd": "./setup.sh",
         "hooks": {
             "guard": "ASPHALT_VERIF_HOOKS",
-            "enable": "no source hooks exist: all instrumentation lives in /verif and uses asphalt's public API; checks import /repo/src directly",
+            "enable": "one add-only hook: ASPHALT_VERIF_HOOKS=trace makes Context.add_teardown_callback wrap callbacks so that registration/start/end are appended to asphalt.core._verif.TRACE (used by C01 to trace the repository's own test suite); everything else is observed through the public API; checks import /repo/src directly",
             "baseline_off_cmd": "cd /repo && /venv/bin/python -m pytest -ra -q -p no:cacheprovider --timeout=900 --continue-on-collection-errors",
-            "source_commits": [],
+            "source_commits": [HOOK_COMMIT],
             "add_only": True,
         },
         "engines": [{"name": "tlc", "path": "/opt/veriftools/tla/tla2tools.jar", "serves_properties": sorted(CLAIMS),
